@@ -44,7 +44,8 @@ def handleBodiesSE (op : String) (args : List String) : Option String :=
   | "body_se_end", [c, st, en, du] =>
     match decOV st, decOV en, decOD du with
     | some st, some en, some du =>
-      let r := if c == "T" then Gen.BodiesSE.Todo_end st en du else Gen.BodiesSE.Event_end st en du
+      let r := if c == "T" then Gen.BodiesSE.Todo_end (start := st) (end_ := en) (duration := du)
+        else Gen.BodiesSE.Event_end (start := st) (end_ := en) (duration := du)
       some (match r with
         | .ok (some v) => SEP.encVal v
         | .ok none => "-"
